@@ -334,7 +334,7 @@ class PublicDispatch(Case):
 
     def inputs(self, mk):
         p = self.params
-        specs = [shell_spec(mk, "ABCD"[i], l, K, M) for i, (l, K, M) in enumerate(zip(p["ls"], p["Ks"], p["Ms"]))]
+        specs = cm.specs_from(mk, p)
         nf = sum(cm.nfun(l, t) * M for l, t, M in zip(p["ls"], p["types"], p["Ms"]))
         T = [[mk.var(f"T{a}_{b}") for b in range(nf)] for a in range(p["nt"])] if p.get("nt") else None
         return dict(specs=specs, T=T, C=[mk.var("C" + x) for x in "xyz"], P=[mk.var("P" + x) for x in "xyz"],
